@@ -404,6 +404,9 @@ func runC01(c *wk.Ctx) {
 	c.Obs("sessions", st.sessions)
 	// S4: every exported view type, every zero-argument method
 	c01Views(c)
+	// S5: Parse of echo replies (matching, duplicated, foreign, truncated) while Ping/Ping6 calls are pending: the only
+	// state outside the frame that Parse consults
+	runPingStream(c, c.N(400, 20_000), 3_000_000_000)
 }
 
 // viewTypes is the list named by the property; methods are enumerated by reflection so new getters are covered automatically.
